@@ -45,6 +45,17 @@ Definition expand_bytes (bs : Z) : Z :=
 Definition slot_size (s : Z) : Z :=
   if s <=? 2048 then 2 ^ bitlen (Z.max (s - 1) 15) else s.
 
+(* ArenaHashBase::_calc_mod: hash - uint32((uint64(hash) * rcp) >> shift) * buckets, with the machine wrap-around *)
+Definition calc_mod32 (p r s h : Z) : Z :=
+  let x := (((h * r) mod 2 ^ 64) / 2 ^ s) mod 2 ^ 32 in (h - x * p) mod 2 ^ 32.
+
+(* decidable criterion under which the multiply-shift is an exact division for EVERY 32-bit hash (proved in OracleProofs):
+   e = r*p - 2^s >= 0, e * 2^32 <= 2 * 2^s, and the largest h = -1 (mod p) below 2^32 still satisfies h * e < 2^s *)
+Definition rcp_row_exact (row : Z * Z * Z) : bool :=
+  let '(p, r, s) := row in
+  (0 <? p) && (p <? 2 ^ 32) && (0 <=? r) && (r <? 2 ^ 32) && (0 <=? s) &&
+  (0 <=? r * p - 2 ^ s) && ((r * p - 2 ^ s) * 2 ^ 32 <=? 2 * 2 ^ s) && (((2 ^ 32 / p) * p - 1) * (r * p - 2 ^ s) <? 2 ^ s).
+
 (* ------------------------------------------------------------------------------------------------------------------ *)
 Section WithOracle.
 
@@ -470,6 +481,231 @@ Fixpoint holder_run (fixed : bool) (ops : list cop) (h : holder) (k : nat) : lis
 
 (* abstract content of a holder: what a user can observe (capacities and the pool size are not content) *)
 Definition holder_content (h : holder) : list label * list Z * Z := (ho_labels h, ho_relocs h, ho_unresolved h).
+
+(* ------------------------------------------------------------------------------------------------------------------ *)
+(* CodeHolder: sections (new_section) and the address table (add_address_to_address_table), x86 jmp/call to an absolute   *)
+(* address (relocation entry + address-table entry)                                                                      *)
+(* ------------------------------------------------------------------------------------------------------------------ *)
+Record sects := mksects {
+  ss_orders : list Z; ss_cap : Z;             (* ArenaVector<Section*> _sections: the order key of section id i *)
+  ss_by_order : list nat; ss_by_cap : Z;      (* ArenaVector<Section*> _sections_by_order: ids sorted by (order, id) *)
+  ss_addrtab : option nat;                    (* _address_table_section *)
+  ss_entries : list Z;                        (* _address_table_entries (addresses), slots of 8 bytes each *)
+}.
+
+(* the state CodeHolder::init leaves: both vectors reserved for the first time (capacity 2), .text with the lowest order *)
+Definition text_order : Z := -2147483648.
+Definition addrtab_order : Z := 2147483647.
+Definition sects_init : sects := mksects [text_order] 2 [0%nat] 2 None [].
+
+Definition order_of (s : sects) (id : nat) : Z := nth id (ss_orders s) 0.
+
+(* std::lower_bound by (order, id): the new section has the largest id, so it goes behind every entry with order <= its own *)
+Fixpoint insert_by_order (orders : list Z) (order : Z) (id : nat) (l : list nat) : list nat :=
+  match l with
+  | [] => [id]
+  | x :: t => if nth x orders 0 <=? order then x :: insert_by_order orders order id t else id :: l
+  end.
+
+Definition new_section (order : Z) (s : sects) (k : nat) : result * sects * nat :=
+  let '(r1, v1, k1) := vec_reserve_one 8 (mkvec (ss_orders s) (ss_cap s)) k in
+  match r1 with
+  | Ok =>
+      let s1 := mksects (ss_orders s) (v_cap v1) (ss_by_order s) (ss_by_cap s) (ss_addrtab s) (ss_entries s) in
+      let '(r2, v2, k2) := vec_reserve_one 8 (mkvec (map Z.of_nat (ss_by_order s1)) (ss_by_cap s1)) k1 in
+      match r2 with
+      | Ok =>
+          let s2 := mksects (ss_orders s1) (ss_cap s1) (ss_by_order s1) (v_cap v2) (ss_addrtab s1) (ss_entries s1) in
+          let '(b, k3) := request k2 in
+          if b then
+            (Ok, mksects (ss_orders s2 ++ [order]) (ss_cap s2) (insert_by_order (ss_orders s2) order (length (ss_orders s2)) (ss_by_order s2))
+                         (ss_by_cap s2) (ss_addrtab s2) (ss_entries s2), k3)
+          else (Oom, s2, k3)
+      | _ => (r2, s1, k2)
+      end
+  | _ => (r1, s, k1)
+  end.
+
+(* CodeHolder::add_address_to_address_table: known address -> nothing to do; otherwise the .addrtab section is created on
+   first use (and STAYS when the entry allocation fails afterwards), then one entry is allocated *)
+Definition add_address (addr : Z) (s : sects) (k : nat) : result * sects * nat :=
+  if existsb (Z.eqb addr) (ss_entries s) then (Ok, s, k) else
+  let '(rs, s1, k1) :=
+    match ss_addrtab s with
+    | Some _ => (Ok, s, k)
+    | None =>
+        let '(r, s', k') := new_section addrtab_order s k in
+        match r with
+        | Ok => (Ok, mksects (ss_orders s') (ss_cap s') (ss_by_order s') (ss_by_cap s') (Some (length (ss_orders s))) (ss_entries s'), k')
+        | _ => (Oom, s', k')
+        end
+    end in
+  match rs with
+  | Ok =>
+      let '(b, k2) := request k1 in
+      if b then (Ok, mksects (ss_orders s1) (ss_cap s1) (ss_by_order s1) (ss_by_cap s1) (ss_addrtab s1) (ss_entries s1 ++ [addr]), k2)
+      else (Oom, s1, k2)
+  | _ => (Oom, s1, k1)
+  end.
+
+Record holder2 := mkh2 { h2_base : holder; h2_sects : sects }.
+Definition holder2_init : holder2 := mkh2 holder_empty sects_init.
+
+Definition set_last_reloc (ty : Z) (h : holder) : holder :=
+  mkholder (ho_labels h) (ho_labels_cap h) (removelast (ho_relocs h) ++ [ty]) (ho_relocs_cap h) (ho_fixup_pool h) (ho_unresolved h).
+
+(* x86-64 `call/jmp imm64` without a known base address: relocation entry (kAbsToRel), address-table entry, then the entry
+   becomes kX64AddressEntry.  fixed = true: C15-stale-reloc (the relocation is discarded when the address table fails) *)
+Definition call_abs (fixed : bool) (addr : Z) (h : holder2) (k : nat) : result * holder2 * nat :=
+  let '(r, b1, k1) := new_reloc 5 (h2_base h) k in
+  match r with
+  | Ok =>
+      let '(r2, s2, k2) := add_address addr (h2_sects h) k1 in
+      match r2 with
+      | Ok => (Ok, mkh2 (set_last_reloc 6 b1) s2, k2)
+      | _ => (r2, mkh2 (if fixed then pop_reloc b1 else b1) s2, k2)
+      end
+  | _ => (r, mkh2 b1 (h2_sects h), k1)
+  end.
+
+Inductive cop2 := CBase (op : cop) | CNewSection (order : Z) | CAddAddress (addr : Z) | CCallAbs (addr : Z).
+
+Definition holder2_step (fixed : bool) (op : cop2) (h : holder2) (k : nat) : result * holder2 * nat :=
+  match op with
+  | CBase o => let '(r, b, k1) := holder_step fixed o (h2_base h) k in (r, mkh2 b (h2_sects h), k1)
+  | CNewSection order => let '(r, s, k1) := new_section order (h2_sects h) k in (r, mkh2 (h2_base h) s, k1)
+  | CAddAddress addr => let '(r, s, k1) := add_address addr (h2_sects h) k in (r, mkh2 (h2_base h) s, k1)
+  | CCallAbs addr => call_abs fixed addr h k
+  end.
+
+Fixpoint holder2_run (fixed : bool) (ops : list cop2) (h : holder2) (k : nat) : list result * holder2 * nat :=
+  match ops with
+  | [] => ([], h, k)
+  | op :: t =>
+      let '(r, h1, k1) := holder2_step fixed op h k in
+      let '(rs, h2, k2) := holder2_run fixed t h1 k1 in (r :: rs, h2, k2)
+  end.
+
+(* abstract content of the section state (capacities are not content) *)
+Definition sects_content (s : sects) : list Z * list nat * option nat * list Z :=
+  (ss_orders s, ss_by_order s, ss_addrtab s, ss_entries s).
+
+(* ------------------------------------------------------------------------------------------------------------------ *)
+(* BaseBuilder node creation: label nodes, section nodes, instruction nodes (builder.cpp)                                *)
+(* ------------------------------------------------------------------------------------------------------------------ *)
+Inductive bnode := NInst | NLabel (li : nat).
+
+Record bld := mkbld {
+  b_lnodes : list bool; b_lcap : Z;          (* ArenaVector<LabelNode*> _label_nodes: true = a node exists *)
+  b_snodes : list bool; b_scap : Z;          (* ArenaVector<SectionNode*> _section_nodes *)
+  b_active : list nat;                       (* labels whose node is linked into the node list (bound) *)
+  b_secs : list (nat * list bnode);          (* the node list, grouped by section node in list order *)
+  b_cur : nat }.                             (* section the cursor is in *)
+
+(* the state BaseBuilder::on_attach leaves: section node 0 exists and is active, capacity 2 *)
+Definition bld_init : bld := mkbld [] 0 [true] 2 [] [(0%nat, [])] 0.
+
+Definition bools_vec (l : list bool) (cap : Z) : vec := mkvec (map (fun _ => 0) l) cap.
+
+Fixpoint append_to (sid : nat) (n : bnode) (secs : list (nat * list bnode)) : list (nat * list bnode) :=
+  match secs with
+  | [] => []
+  | (s, ns) :: t => if (s =? sid)%nat then (s, ns ++ [n]) :: t else (s, ns) :: append_to sid n t
+  end.
+
+Definition set_nth_true (i : nat) (l : list bool) : list bool := upd_nth i (fun _ => true) l.
+Definition pad_to (n : nat) (l : list bool) : list bool := l ++ repeat false (n - length l).
+
+Inductive bop := BNewLabel | BBind (li : nat) | BSection (sid : nat) | BInst.
+
+(* BaseBuilder::new_label: CodeHolder::new_label_id, then Builder_new_label_internal (reserve, node, append); when the second
+   part fails the holder keeps an orphan label (no node refers to it) and an invalid Label is returned *)
+Definition b_new_label (h : holder2) (b : bld) (k : nat) : result * holder2 * bld * nat :=
+  let n := length (ho_labels (h2_base h)) in
+  let '(r, base1, k1) := new_label (h2_base h) k in
+  match r with
+  | Ok =>
+      let h1 := mkh2 base1 (h2_sects h) in
+      let grow_by := (n - length (b_lnodes b) + 1)%nat in
+      let '(r2, v2, k2) := vec_reserve_additional 8 (bools_vec (b_lnodes b) (b_lcap b)) (Z.of_nat grow_by) k1 in
+      match r2 with
+      | Ok =>
+          let b1 := mkbld (b_lnodes b) (v_cap v2) (b_snodes b) (b_scap b) (b_active b) (b_secs b) (b_cur b) in
+          let '(ok3, k3) := request k2 in
+          if ok3 then (Ok, h1, mkbld (pad_to n (b_lnodes b1) ++ [true]) (b_lcap b1) (b_snodes b1) (b_scap b1) (b_active b1) (b_secs b1) (b_cur b1), k3)
+          else (Oom, h1, b1, k3)
+      | _ => (Oom, h1, b, k2)
+      end
+  | _ => (r, mkh2 base1 (h2_sects h), b, k1)
+  end.
+
+(* BaseBuilder::bind = label_node_of (resize_grow, node on demand) + add_node *)
+Definition b_bind (li : nat) (h : holder2) (b : bld) (k : nat) : result * bld * nat :=
+  if (li <? length (ho_labels (h2_base h)))%nat then
+    let '(r1, b1, k1) :=
+      if (li <? length (b_lnodes b))%nat then (Ok, b, k) else
+        let '(r, v, k') := (if b_lcap b <? Z.of_nat (li + 1) then vec_reserve_grow 8 (bools_vec (b_lnodes b) (b_lcap b)) (Z.of_nat (li + 1)) k
+                            else (Ok, bools_vec (b_lnodes b) (b_lcap b), k)) in
+        match r with
+        | Ok => (Ok, mkbld (pad_to (li + 1) (b_lnodes b)) (v_cap v) (b_snodes b) (b_scap b) (b_active b) (b_secs b) (b_cur b), k')
+        | _ => (Oom, b, k')
+        end in
+    match r1 with
+    | Ok =>
+        let '(r2, b2, k2) :=
+          if nth li (b_lnodes b1) false then (Ok, b1, k1) else
+            let '(ok2, k') := request k1 in
+            if ok2 then (Ok, mkbld (set_nth_true li (b_lnodes b1)) (b_lcap b1) (b_snodes b1) (b_scap b1) (b_active b1) (b_secs b1) (b_cur b1), k')
+            else (Oom, b1, k') in
+        match r2 with
+        | Ok =>
+            if existsb (Nat.eqb li) (b_active b2) then (Invalid, b2, k2)
+            else (Ok, mkbld (b_lnodes b2) (b_lcap b2) (b_snodes b2) (b_scap b2) (li :: b_active b2) (append_to (b_cur b2) (NLabel li) (b_secs b2)) (b_cur b2), k2)
+        | _ => (Oom, b2, k2)
+        end
+    | _ => (Oom, b1, k1)
+    end
+  else (Invalid, b, k).
+
+(* BaseBuilder::section = section_node_of (reserve_grow, node on demand, resize) + activation / cursor move *)
+Definition b_section (sid : nat) (h : holder2) (b : bld) (k : nat) : result * bld * nat :=
+  if (sid <? length (ss_orders (h2_sects h)))%nat then
+    let '(r1, cap1, k1) :=
+      if (sid <? length (b_snodes b))%nat then (Ok, b_scap b, k) else
+        let '(r, v, k') := vec_reserve_grow 8 (bools_vec (b_snodes b) (b_scap b)) (Z.of_nat (sid + 1)) k in (r, v_cap v, k') in
+    match r1 with
+    | Ok =>
+        let b1 := mkbld (b_lnodes b) (b_lcap b) (b_snodes b) cap1 (b_active b) (b_secs b) (b_cur b) in
+        let '(r2, b2, k2) :=
+          if nth sid (b_snodes b1) false then (Ok, b1, k1) else
+            let '(ok2, k') := request k1 in
+            if ok2 then (Ok, mkbld (b_lnodes b1) (b_lcap b1) (set_nth_true sid (pad_to (sid + 1) (b_snodes b1))) (b_scap b1) (b_active b1) (b_secs b1) (b_cur b1), k')
+            else (Oom, b1, k') in
+        match r2 with
+        | Ok =>
+            let secs := if existsb (fun p => (fst p =? sid)%nat) (b_secs b2) then b_secs b2 else b_secs b2 ++ [(sid, [])] in
+            (Ok, mkbld (b_lnodes b2) (b_lcap b2) (b_snodes b2) (b_scap b2) (b_active b2) secs sid, k2)
+        | _ => (Oom, b2, k2)
+        end
+    | _ => (Oom, b, k1)
+    end
+  else (Invalid, b, k).
+
+Definition b_inst (b : bld) (k : nat) : result * bld * nat :=
+  let '(ok1, k1) := request k in
+  if ok1 then (Ok, mkbld (b_lnodes b) (b_lcap b) (b_snodes b) (b_scap b) (b_active b) (append_to (b_cur b) NInst (b_secs b)) (b_cur b), k1)
+  else (Oom, b, k1).
+
+Definition builder_step (op : bop) (h : holder2) (b : bld) (k : nat) : result * holder2 * bld * nat :=
+  match op with
+  | BNewLabel => b_new_label h b k
+  | BBind li => let '(r, b1, k1) := b_bind li h b k in (r, h, b1, k1)
+  | BSection sid => let '(r, b1, k1) := b_section sid h b k in (r, h, b1, k1)
+  | BInst => let '(r, b1, k1) := b_inst b k in (r, h, b1, k1)
+  end.
+
+(* what serialization sees: the node list and the cursor; plus which labels / sections have a node (as a total map) *)
+Definition bld_list (b : bld) : list (nat * list bnode) * nat * list nat := (b_secs b, b_cur b, b_active b).
 
 End WithOracle.
 
